@@ -66,8 +66,15 @@ class C14(MgrBase):
                 ops += ["add %d" % a, "bf %d %s" % (a, rand_bits(rng, n))]
                 if rng.random() < 0.7:
                     ops.append("int %d" % a)
-            if rng.random() < 0.4:
+            # what is owned decides which rate the timer ranks by: everything owned (seeding); nothing; and the states in
+            # between -- pieces still being fetched (Reserved) with or without Missing ones beside them
+            r0 = rng.random()
+            if r0 < 0.3:
                 ops.append("setst " + ",".join(["H"] * n))
+            elif r0 < 0.6:
+                ops.append("setst " + ",".join(rng.choice(["H", "R1", "R2"]) if i else "R1" for i in range(n)))
+            elif r0 < 0.75:
+                ops.append("setst " + ",".join(rng.choice(["H", "R1", "M"]) for _ in range(n)))
             late = rng.random() < 0.3
             ties = rng.random() < 0.4
             for a in range(1, npeers + 1):
